@@ -18,6 +18,15 @@ def _check_sendError(api):
         ev = [e[0] for e in o.st.events]
         ok_order = ('_sendMsg' in ev and '_shutdown' in ev and ev.index('_sendMsg') < ev.index('_shutdown'))
         api.oblige(o.st, 'alert-sent-before-shutdown', ok_order)
+        # C08: "for protocol violations a fatal alert was sent first": the alert must reach the wire, so pending
+        # buffered writes are flushed and write buffering is switched off BEFORE the alert is sent (otherwise the
+        # alert stays in BufferedSocket's queue when the caller keeps the socket open)
+        names = [e[0] for e in o.st.events]
+        bw = [i for i, e in enumerate(o.st.events) if e[0] == 'setattr:buffer_writes']
+        sm = names.index('_sendMsg') if '_sendMsg' in names else -1
+        unbuffered = bool(bw) and sm >= 0 and bw[-1] < sm and eq_op(o.st.events[bw[-1]][1][-1], VBool(z3.BoolVal(False))).t
+        api.oblige(o.st, 'write-buffering-off-before-the-alert-is-sent', unbuffered if isinstance(unbuffered, bool) else unbuffered)
+        api.oblige(o.st, 'pending-writes-flushed-before-the-alert-is-sent', 'flush' in names and sm >= 0 and names.index('flush') < sm)
         sh = api.events(o.st, '_shutdown')
         api.oblige(o.st, 'shutdown-not-resumable',
                    len(sh) == 1 and eq_op(sh[0][1][-1], VBool(z3.BoolVal(False))).t)
